@@ -8,4 +8,16 @@ type (
 	RWMutex   = vrt.RWMutex
 	WaitGroup = vrt.WaitGroup
 	Once      = vrt.Once
+	Cond      = vrt.Cond
+	Locker    = vrt.Locker
+	Pool      = vrt.Pool
+	Map       = vrt.Map
 )
+
+func NewCond(l Locker) *Cond { return vrt.NewCond(l) }
+
+// OnceFunc replaces sync.OnceFunc.
+func OnceFunc(f func()) func() {
+	var o Once
+	return func() { o.Do(f) }
+}
